@@ -26,6 +26,8 @@ structure FieldDef where
   type : TRef
   /-- schema directives on the field definition, in source order (`ImplDirectives`) -/
   dirs : List String := []
+  /-- bound as a plain struct field of the parent's Go model: no resolver is invoked -/
+  plain : Bool := false
 deriving Repr, Inhabited
 
 inductive Kind where
